@@ -850,8 +850,8 @@ func execC12[K comparable, V any](c pcCase, cd pcCodec[K, V], x *verifkit.Ctx) (
 	// 2b. two faults: a single fault that was tolerated silently (it may have switched a protection
 	// off: a renamed descriptor field, a zeroed header field) combined with a second fault anywhere
 	if len(silent) > 0 {
-		step1 := len(silent)/40 + 1
-		step2 := len(stream)/250 + 1
+		step1 := len(silent)/24 + 1
+		step2 := len(stream)/200 + 1
 		pairs := int64(0)
 		for i := 0; i < len(silent); i += step1 {
 			sf := silent[i]
@@ -965,7 +965,7 @@ func TestVerifC12(t *testing.T) {
 	vkOwnPipeline()
 	verifkit.Run(t, verifkit.Spec[pcCase]{
 		ID: "C12", Gen: genPersist(true), Exec: dispatchC12,
-		Rule:        "C12: rapid draws a cache (types, MaxSize 1..30, saver uptime 0..30 days, build script with TTLs, elapsed time before the load) and 4..12 multi-byte damages; for each generated stream the executor enumerates EVERY truncation offset, EVERY single-bit flip and the substitutions {0x00,0xFF,+1} at EVERY offset (streams <= 4 KiB; sampled plus all header/type-descriptor offsets otherwise), pairs of faults (each single header/descriptor fault that was tolerated silently combined with a bit flip at ~250 positions spread over the stream), the drawn multi-byte damages, and the duplication, removal and pairwise swap of whole gob messages; each damaged stream is loaded under the saved version and under another version; a stream is non-trivial when faults hit block header fields or gob type descriptors, or truncations fell inside the last message (always true for enumerated streams; distinct = distinct streams)",
+		Rule:        "C12: rapid draws a cache (types, MaxSize 1..30, saver uptime 0..30 days, build script with TTLs, elapsed time before the load) and 4..12 multi-byte damages; for each generated stream the executor enumerates EVERY truncation offset, EVERY single-bit flip and the substitutions {0x00,0xFF,+1} at EVERY offset (streams <= 4 KiB; sampled plus all header/type-descriptor offsets otherwise), pairs of faults (each single header/descriptor fault that was tolerated silently combined with two bit flips at each of ~200 positions spread over the stream; up to 24 such single faults per stream), the drawn multi-byte damages, and the duplication, removal and pairwise swap of whole gob messages; each damaged stream is loaded under the saved version and under another version; a stream is non-trivial when faults hit block header fields or gob type descriptors, or truncations fell inside the last message (always true for enumerated streams; distinct = distinct streams)",
 		Assumptions: append([]string{"gob's length-prefixed framing is parsed by the harness to locate messages and the end of the metadata message"}, pcAssumptions...),
 	})
 }
